@@ -40,7 +40,7 @@ def main():
         "hooks": {
             "guard": "twenty_first_verif",
             "enable": "RUSTFLAGS=\"--cfg twenty_first_verif\" is set by tools/runner.py for every harness build; no hook in /repo is needed (all observation points are public API)",
-            "baseline_off_cmd": "cd /repo && cargo nextest run --workspace --no-fail-fast --tool-config-file pb:/w/lib/nextest.toml --profile pb --test-threads 8 --offline  (fallback: cargo test --workspace --no-fail-fast --offline); no cfg guard is used, so this is the plain suite",
+            "baseline_off_cmd": "cd /repo && cargo nextest run --workspace --no-fail-fast --tool-config-file pb:/w/lib/nextest.toml --profile pb --test-threads 8 --offline",
             "source_commits": [],
             "add_only": True,
         },
